@@ -130,7 +130,7 @@ func checkC17(c *Ctx) {
 	c.Trusted = []string{"go/ssa", "sync.(RW)Mutex semantics (non-reentrant)", "frozen guarded-by table in props_c17.go"}
 	c.Rule("C17.1", "lock pairing on all paths in every function and goroutine closure of the process-backed driver (linux and windows file sets)", 8)
 	c.Rule("C17.2", "guarded-by: hasProc/listener (in), cmd/wr/rd (out), opened (Driver) are read with the owner's mutex held and written with it write-held", 15)
-	c.Rule("C17.3", "stop is acknowledged after the listener is cleared under the write lock; the listener is invoked only under the read lock; the stop function returns only after the acknowledgement", 3)
+	c.Rule("C17.3", "stop is acknowledged after the listener is cleared under the write lock; the listener is invoked only under the read lock; the stop function returns only after the acknowledgement; when the helper process cannot be started, every state field the start routine had set is reset before it returns the error (otherwise Close waits for goroutines that were never started)", 5)
 	c.Rule("C17.4", "in-memory driver typestate: fields written by the stop closure are re-initialised by Listen on every path; nil-able pointer fields are dereferenced only under a nil test; Send consults the stop flag before feeding the decoder", 3)
 	c.Rule("C17.5", "siblings: every Port implementation's Open (Close) returns nil without effects when already open (closed); every Out.Send reaches the transport only through the open test whose failing edge returns ErrPortClosed", 10)
 
@@ -256,6 +256,9 @@ func checkC17(c *Ctx) {
 		}
 		c.Check(okStop, "C17.3", "stop returns only after the acknowledgement", "-", "send of the stop request is followed by the receive of the acknowledgement on every path to return", whyStop)
 	}
+
+	// ---------------- C17.3d start failure rolls the port state back
+	startRollback(c, p)
 
 	// ---------------- C17.4 in-memory driver
 	tin := p.roleT("drivers/testdrv.in")
@@ -708,9 +711,175 @@ func sendGuard(p *Program, fn *ssa.Function, errClosed *ssa.Global) (bool, strin
 				}
 			}
 			if all {
-				return true, "the closed edge of the open test returns ErrPortClosed; the transport is only reached on the open edge"
+				// a port with a lock: test and transport use must sit in one continuous hold of the lock (a test made in a
+				// helper that releases the lock again is stale when the transport is used: a concurrent Close wins the race)
+				if why := sendAtomic(fn, iff); why != "" {
+					return false, why
+				}
+				return true, "the closed edge of the open test returns ErrPortClosed; the transport is only reached on the open edge (and, where the port has a lock, inside the same hold of it)"
 			}
 		}
 	}
 	return false, "Send can reach the transport without passing the open test, or the closed edge does not return ErrPortClosed"
+}
+
+// sendAtomic: "" when fn takes no lock, or when the state test of iff reads the state directly while a lock acquired
+// in fn is held and that lock is not released before the calls that follow on the open edge.
+func sendAtomic(fn *ssa.Function, iff *ssa.If) string {
+	var acquires, releases []ssa.Instruction
+	for _, call := range calls(fn) {
+		if op, ok := mutexOp(call); ok {
+			_, deferred := call.(*ssa.Defer)
+			switch op.kind {
+			case "Lock", "RLock":
+				acquires = append(acquires, call.(ssa.Instruction))
+			case "Unlock", "RUnlock":
+				if !deferred {
+					releases = append(releases, call.(ssa.Instruction))
+				}
+			}
+		}
+	}
+	if len(acquires) == 0 {
+		return ""
+	}
+	// the loads the condition is made of
+	var loads []ssa.Instruction
+	viaCall := false
+	var walk func(v ssa.Value, d int)
+	walk = func(v ssa.Value, d int) {
+		if d > 4 {
+			return
+		}
+		switch x := v.(type) {
+		case *ssa.Call:
+			viaCall = true
+		case *ssa.UnOp:
+			if x.Op == token.MUL && fieldVar(x.X) != nil {
+				loads = append(loads, x)
+				return
+			}
+			walk(x.X, d+1)
+		case *ssa.BinOp:
+			walk(x.X, d+1)
+			walk(x.Y, d+1)
+		}
+	}
+	walk(iff.Cond, 0)
+	if viaCall || len(loads) == 0 {
+		return "Send takes the port's lock, but the open test is made through a helper (outside that hold of the lock): between the test and the use of the transport a concurrent Close can reset the transport — Send then fails on a nil transport instead of reporting ErrPortClosed"
+	}
+	for _, l := range loads {
+		held := false
+		for _, a := range acquires {
+			if instrDominates(a, l) {
+				held = true
+			}
+		}
+		if !held {
+			return "the open test of Send reads the port state before the lock is taken"
+		}
+		for _, u := range releases {
+			if canReachAvoiding(l, u, nil) {
+				for _, call := range calls(fn) {
+					ci := call.(ssa.Instruction)
+					if _, isLock := mutexOp(call); isLock {
+						continue
+					}
+					if canReachAvoiding(u, ci, nil) && instrDominates(iff, ci) {
+						return "the lock is released between the open test and the use of the transport in Send"
+					}
+				}
+			}
+		}
+	}
+	return ""
+}
+
+// startRollback (C17.3d): in every function of the process-backed driver that starts the helper ((*exec.Cmd).Start), each
+// guarded state field that the function sets to its "open" value (true / non-nil) before the start is reset to its zero
+// value on every path from the failing edge of the start to a return.
+func startRollback(c *Ctx, p *Program) {
+	sp := p.Pkg("drivers/midicatdrv")
+	if sp == nil {
+		c.Unk("C17.3", "package midicatdrv", "-", "not loaded")
+		return
+	}
+	n := 0
+	for _, fn := range pkgFuncsWithClosures(sp, p) {
+		for _, s := range errorSites(fn) {
+			if calleeQual(s.call) != "exec.Start" || s.errV == nil {
+				continue
+			}
+			n++
+			start := s.call.(ssa.Instruction)
+			nn, _ := nonNilEdges(errEq(fn, s.errV))
+			if len(nn) == 0 {
+				c.Bad("C17.3", "start failure tested in "+FuncName(fn), p.Pos(start.Pos()), "the error of starting the helper process is never tested")
+				continue
+			}
+			// state fields set before the start
+			set := map[*types.Var]ssa.Instruction{}
+			for _, b := range fn.Blocks {
+				for _, in := range b.Instrs {
+					st, ok := in.(*ssa.Store)
+					if !ok {
+						continue
+					}
+					fv := fieldVar(st.Addr)
+					if fv == nil {
+						continue
+					}
+					tn := p.logicalTypeName(st.Addr.(*ssa.FieldAddr).X.Type())
+					if _, guarded := guardedBy[tn][p.logicalFieldName(fv)]; !guarded {
+						continue
+					}
+					if k, isC := st.Val.(*ssa.Const); isC && (k.Value == nil || k.Value.String() == "false") {
+						continue // a reset
+					}
+					if canReachAvoiding(st, start, nil) {
+						set[fv] = st
+					}
+				}
+			}
+			isReset := func(in ssa.Instruction, fv *types.Var) bool {
+				st, ok := in.(*ssa.Store)
+				if !ok || fieldVar(st.Addr) != fv {
+					return false
+				}
+				k, isC := st.Val.(*ssa.Const)
+				return isC && (k.Value == nil || k.Value.String() == "false")
+			}
+			for fv := range set {
+				avoid := map[ssa.Instruction]bool{}
+				for _, b := range fn.Blocks {
+					for _, in := range b.Instrs {
+						if isReset(in, fv) {
+							avoid[in] = true
+						}
+					}
+				}
+				ok := true
+				for _, e := range nn {
+					if len(e.to.Instrs) == 0 {
+						continue
+					}
+					first := e.to.Instrs[0]
+					for _, r := range allReturns(fn) {
+						if avoid[first] {
+							continue
+						}
+						if ssa.Instruction(r) == first || canReachAvoiding(first, r, avoid) {
+							ok = false
+						}
+					}
+				}
+				key := fmt.Sprintf("start failure resets %s.%s in %s", p.logicalTypeName(fn.Params[0].Type()), p.logicalFieldName(fv), FuncName(fn))
+				c.Check(ok, "C17.3", key, p.Pos(start.Pos()), "every path from the failing start to a return resets the field", "a failing start returns with "+p.logicalFieldName(fv)+" still in its open value: the port looks open although nothing was started, and Close waits for an acknowledgement that never comes")
+			}
+		}
+	}
+	if n == 0 {
+		c.Unk("C17.3", "helper process start sites", "-", "no call of (*exec.Cmd).Start found in the process-backed driver")
+	}
 }
